@@ -130,6 +130,9 @@ func (e *Exec) Open() error {
 		}
 		co := e.collOptions()
 		co.LowerLevelInit = e.Lower.Snapshot()
+		if e.Cfg.NoLowerInit && len(e.Lower.Snapshot().Map()) == 0 {
+			co.LowerLevelInit = nil
+		}
 		co.LowerLevelUpdate = e.Lower.Update
 		c, err := moss.NewCollection(co)
 		if err != nil {
